@@ -1094,12 +1094,36 @@ def run(ctx, big=False):
 
 
 def correspondence(ctx, res, trace_records):
-    """HOOK for the model correspondence (integrator): run coq/model/Conc.v on every trace record -- same programs,
-    same executed schedule (record['schedule_used']) -- and compare (a) each call's event sequence
-    (record['calls'][client][i]['events']) with the model's micro-step sequence, (b) per-call results, (c) step for
-    step the merged log (record['log'] = [(client, 'sql:BEGIN' | 'file:write' | ..., canonical detail)]).
-    Report with res.traces_validated += 1 / res.disagreements.append(fw.Violation(sig, text, case, 'correspondence'))."""
-    return
+    """Trace correspondence with the micro-step machine (coq/model/Conc.v): (a) the event sequence of every
+    completed top-level call must be a path of the stage automaton that simulates the machine
+    (ConcTrace.accepts; proofs/ConcTraceFacts.step_is_transition), (b) the merged log must respect the lock
+    discipline the machine proves (one client between BEGIN and COMMIT/ROLLBACK at a time; table writes only
+    inside the writer's own transaction)."""
+    import tracecorr
+    traces = []
+    for ri, rec in enumerate(trace_records):
+        if rec.get('kind', 'cache') != 'cache':
+            continue
+        for recs in rec['calls']:
+            for c in recs:
+                if c.get('depth', 0) or c.get('op') in tracecorr.SKIP_OPS or 'events' not in c:
+                    continue
+                if c.get('op') in ('begin_block', 'end_block', 'raise_in_block'):
+                    continue
+                tags = tracecorr.tags_from_shorts(c['events'], timed_out=(c.get('exc') == 'Timeout'))
+                traces.append(((ri, c.get('client'), c.get('index'), c.get('op'), c['events']), tags, False))
+        for prob in tracecorr.lock_discipline(rec['log'], rec['calls'])[:1]:
+            res.disagreements.append(fw.Violation('lock_discipline', prob, {'programs': rec['programs'], 'schedule': rec['schedule_used'][:200],
+                                                                           'mode': rec['mode']}, 'correspondence'))
+    if len(traces) > 6000:
+        traces = ctx.rng.sample(traces, 6000)
+    bad, errors = tracecorr.check_traces('c05tr', traces)
+    for e in errors:
+        res.disagreements.append(fw.Violation('model-eval', 'stage automaton evaluation failed: ' + e[-300:], {}, 'correspondence'))
+    res.traces_validated += len(traces) - len(bad)
+    for t in bad[:3]:
+        res.disagreements.append(fw.Violation('stage_order', 'the event sequence of %s is not a path of the stage machine: %s' % (t[0][3], t[0][4]),
+                                              {'record': t[0][0], 'client': t[0][1], 'call': t[0][2], 'events': t[0][4], 'tags': t[1]}, 'correspondence'))
 
 
 def search(ctx, broken):
